@@ -157,6 +157,43 @@ theorem list_of_leaves_length (env : Env) (f : Nat) (name : String) (ns : Option
   | nil => simp
   | cons t ts ih => simp [marshal, List.flatMap_cons] at *; omega
 
+/-- **The right wrapper** (document/literal wrapped): one element named after the operation in the
+schema's target namespace, holding the parameters' contributions in declaration order. -/
+theorem wrapped_request_shape (env : Env) (fuel : Nat) (op : Op) (args : List (String × Val))
+    (h : op.style = .wrapped) :
+    ∃ kids, request env fuel op args = [.mk (some (env.uri 0)) op.name [] none kids] := by
+  simp only [request, h]
+  exact ⟨_, rfl⟩
+
+/-- **The right wrapper** (rpc): one element named after the operation in the `soap:body`
+namespace; every part accessor is written in no namespace. -/
+theorem rpc_request_shape (env : Env) (fuel : Nat) (op : Op) (args : List (String × Val))
+    (h : op.style = .rpc) :
+    ∃ kids, request env fuel op args = [.mk (some rpcNs) op.name [] none kids] ∧
+      ∀ i ∈ kids, i.nsOf = none ∧ ∃ p ∈ op.ins, i.name = p.name := by
+  simp only [request, h]
+  refine ⟨_, rfl, ?_⟩
+  intro i hi
+  obtain ⟨p, hp, hip⟩ := List.mem_flatMap.mp hi
+  split at hip
+  · simp at hip
+  · split at hip
+    · simp at hip
+    · have := marshal_names env _ _ _ _ _ _ _ hip
+      exact ⟨this.2, p, hp, this.1⟩
+
+/-- **Bare parts**: every element of the body is one part's global element, in the schema's
+target namespace. -/
+theorem bare_request_shape (env : Env) (fuel : Nat) (op : Op) (args : List (String × Val))
+    (h : op.style = .bare) (i : Info) (hi : i ∈ request env fuel op args) :
+    i.nsOf = some (env.uri 0) ∧ ∃ p ∈ op.ins, i.name = op.name ++ "_" ++ p.name := by
+  simp only [request, h] at hi
+  obtain ⟨p, hp, hip⟩ := List.mem_flatMap.mp hi
+  split at hip
+  · simp at hip
+  · have := marshal_names env _ _ _ _ _ _ _ hip
+    exact ⟨this.2, p, hp, this.1⟩
+
 /-! Non-vacuity: a concrete two-type environment with inheritance across namespaces. -/
 def exEnv : Env :=
   { uris := ["urn:a", "urn:b"],
